@@ -14,6 +14,7 @@ pub mod prim_case;
 pub mod total_case;
 pub mod compress_case;
 pub mod stress_case;
+pub mod trace;
 pub mod alloc;
 
 pub use model::{mv, ModelType, Opt};
